@@ -255,6 +255,9 @@ class Model:
     def call_record(self, mod: ModuleInfo, call: ast.Call) -> list | None:
         recs = self._calls.get(mod.rel, {}).get((call.lineno, call.col_offset))
         if not recs:
+            # inside f-strings mypy places a call one column to the left of where ast does
+            recs = [r for r in self._calls.get(mod.rel, {}).get((call.lineno, call.col_offset - 1), []) if r[2] == call.end_lineno and r[3] == call.end_col_offset]
+        if not recs:
             return None
         if len(recs) == 1:
             return recs[0]
@@ -290,9 +293,13 @@ class Model:
         return list(r[6])
 
     def type_of(self, mod: ModuleInfo, expr: ast.AST) -> str:
-        return self._types.get(mod.rel, {}).get(
-            (expr.lineno, expr.col_offset, expr.end_lineno, expr.end_col_offset), '?'  # type: ignore[attr-defined]
-        )
+        tbl = self._types.get(mod.rel, {})
+        k = (expr.lineno, expr.col_offset, expr.end_lineno, expr.end_col_offset)  # type: ignore[attr-defined]
+        t = tbl.get(k)
+        if t is None:
+            # f-string quirk: calls / subscripts start one column earlier in mypy's tree
+            t = tbl.get((k[0], k[1] - 1, k[2], k[3]))
+        return t if t is not None else '?'
 
     def type_classes(self, mod: ModuleInfo, expr: ast.AST) -> list[str]:
         """Repository/builtin class fullnames mentioned in the inferred type of expr."""
